@@ -41,6 +41,7 @@ func checkC18(c *Ctx) {
 		regexpRuleList(c, p)
 		frameFilesHardened(c, p, m)
 		pathRulesTraversal(c, p, "R18.8")
+		pathComparedAsGiven(c, p, "R18.2")
 		privacyOnByDefault(c, p, "R18.9")
 		var slogFns []*ssa.Function
 		for _, fn := range p.RepoFuncs() {
